@@ -368,15 +368,26 @@ class Conn:
     def sendall(self, b):
         self.pending, self.pos = self.dc.on_pdu(self, refs.cat(b)), 0
 
+    def _segment(self, want):
+        """TCP delivers a reply in segments: a read gets at most (about) half of what is still pending, at least one octet"""
+        avail = len(self.pending) - self.pos
+        return min(want, avail if avail <= 1 else (avail + 1) // 2)
+
     def recv_into(self, view):
-        k = min(len(view), len(self.pending) - self.pos)
+        k = self._segment(len(view))
         if k:
             view[:k] = self.pending[self.pos : self.pos + k]
         self.pos += k
         return k
 
-    def recv(self, n):
+    def recv_exactly(self, n):
         k = min(n, len(self.pending) - self.pos)
+        out = self.pending[self.pos : self.pos + k]
+        self.pos += k
+        return out
+
+    def recv(self, n):
+        k = self._segment(n)
         out = self.pending[self.pos : self.pos + k]
         self.pos += k
         return out
@@ -402,8 +413,14 @@ def _run(c, w, script, flavour, op, hash_name, root, now, reply_kind, port, blob
         dc.conns.append(cn)
 
         class R:
+            async def read(self, n=-1):
+                return cn.recv(n if n >= 0 else len(cn.pending) - cn.pos)
+
+            def at_eof(self):
+                return False
+
             async def readexactly(self, n):
-                out = cn.recv(n)
+                out = cn.recv_exactly(n)
                 if len(out) < n:
                     raise asyncio.IncompleteReadError(bytes(len(out)), n)
                 return out
